@@ -48,8 +48,21 @@ def tags_of(c, kind):
     return t
 
 
+def check_scale(r, c, kind="scale"):
+    """overflow-scale size class (see zonal_common): one huge raster, judged by the histogram oracle only"""
+    key = dict(c, kind=kind)
+    r.case(key, desc=None, nontrivial=True, tags=[f"stream:{kind}", f"zdtype:{c['zdtype']}", f"vdtype:{c['vdtype']}",
+                                                  "size:overflow-scale"])
+    st, out, hist = Z.run_scale_stats(c, "dask" if kind.startswith("dask") else "numpy")
+    bad = Z.oracle_scale_stats(c, st, out, hist)
+    if bad:
+        r.fail("stats:zone-table:overflow-scale", f"[{kind}] {c['h']}x{c['w']} raster: " + bad, key)
+
+
 def check_case(r, c, kind, pending):
     """run one case on the real code, apply the oracle, queue the model request"""
+    if c.get("scale"):
+        return check_scale(r, c, kind)
     key = dict(c, kind=kind)
     nontriv = len(set(c["zones"])) > 1 or c["h"] * c["w"] > 1
     r.case(key, desc=key if r.evaluations < 3 else None, nontrivial=nontriv, tags=tags_of(c, kind))
@@ -159,6 +172,33 @@ def malformed(r):
             r.disagree("stats-malformed", dict(what=nm), got, rep)
 
 
+def strides_stream(r, n):
+    """the numba function `_strides` itself against the loop program translated from its source
+    (Gen.Zonal.stridesProg, run by the interpreter of Model/ZonalLoop.lean) and against the model's `strides`"""
+    from xrspatial.zonal import _strides
+    cases, lines = [], []
+    for _ in range(n):
+        rng = r.rng
+        pool = rng.choice([[0, 1, 2, 3, 4], [-3, -1, 0, 2, 5], [0.5, 1.5, 2.25, -0.75, 3]])
+        m = rng.randint(0, 12)
+        fz = sorted(rng.choice(pool) for _ in range(m)) if rng.random() < 0.8 else [rng.choice(pool) for _ in range(m)]
+        uz = sorted(set(rng.sample(pool, rng.randint(0, len(pool))))) if rng.random() < 0.8 else \
+            [rng.choice(pool) for _ in range(rng.randint(0, 5))]           # also unsorted / repeated: the pointer semantics
+        dt = rng.choice(["float64", "float32", "int64"]) if all(float(x) == int(x) for x in fz + uz) else "float64"
+        cases.append((fz, uz, dt))
+        lines.append("zstrides fz=" + (",".join(tok(float(x)) for x in fz) or "-") + " uz=" + (",".join(tok(float(x)) for x in uz) or "-"))
+    reps = Driver().ask(lines)
+    for (fz, uz, dt), rep in zip(cases, reps):
+        key = dict(kind="strides", fz=[tok(float(x)) for x in fz], uz=[tok(float(x)) for x in uz], dtype=dt)
+        r.case(key, nontrivial=len(fz) > 0 and len(uz) > 0, tags=["stream:strides-program", f"dtype:{dt}"])
+        real = [int(x) for x in _strides(np.array(fz, dtype=dt), np.array(uz, dtype=dt)).tolist()]
+        kv = Z.parse_kv(rep) if "=" in rep else {}
+        prog = [int(x) for x in Z.nums(kv.get("prog", "-"), int)] if kv else None
+        model = [int(x) for x in Z.nums(kv.get("model", "-"), int)] if kv else None
+        if kv.get("ok") != "1" or prog != real or model != real:
+            r.disagree("strides-program", key, f"_strides returned {real}", rep[:200])
+
+
 def corpus_cases(r):
     out = []
     for body in r.corpus():
@@ -174,6 +214,10 @@ def run(r, scale=1):
               "randomly, in runs, stripes, interleaved; NaN / +inf / -inf zone cells; values small ints / ints / dyadic "
               "quarters with NaN / inf cells, int32..float64; nodata none / a present value / a zone id / 0 / NaN; "
               "zone_ids none / shuffled subsets with absent ids; emptied zones; stat subsets in any order, user reducers; "
+              "15 % of the value rasters clustered around the nodata value (nodata +- 1..3 for |nodata| up to 1e12, the "
+              "neighbouring floats / a few ppm off, tiny values down to the smallest subnormal around nodata 0); zones also "
+              "as rectangles on a NaN background; one overflow-scale raster (~4800x4800, small integer dtypes, a zone of "
+              "more than 2^31/100 cells) judged by a bincount histogram; "
               "non-trivial = more than one cell or zone")
     r.assumptions += ["np.argsort returns a permutation that sorts the keys with NaN last (checked on every case by the driver)",
                       "np.unique / np.sort are modelled by verified insertion sorts",
@@ -192,7 +236,13 @@ def run(r, scale=1):
         c = Z.make_stats_case(r.rng)
         c["custom"] = r.rng.sample(sorted(CUSTOM), r.rng.randint(1, len(CUSTOM)))
         check_case(r, c, "custom", pending)
+    # overflow scale: a ~4800 x 4800 raster whose dominant zone holds more than 2^31 / 100 cells (the breaks are int32)
+    for k in range(1 if r.tier == "quick" else 2):
+        c = Z.make_scale_case(r.rng)
+        c["stats"] = ["count", "sum"] + r.rng.sample(["mean", "max", "min", "var", "std"], 1 if r.tier == "quick" else 5)
+        check_scale(r, c)
     compare_with_model(r, pending)
+    strides_stream(r, 60 if r.tier == "quick" else 600)
     malformed(r)
 
 
